@@ -81,6 +81,7 @@ def HErr.text : HErr → Str
 inductive POut
   | ok
   | fail (text : Str)
+  | panic (text : Str)    -- the publisher panics with this value
   deriving DecidableEq, Repr, Inhabited
 
 /-- result of the wrapped handler: metadata writes on the consumed message (in order), outputs, error -/
@@ -95,6 +96,8 @@ structure HRes where
 inductive RErr
   | same (e : HErr)
   | both (e : HErr) (pubText : Str)
+  | panicked (pubText : Str)   -- the call does not return: the poison publisher's panic propagates to the caller
+                               -- (inside a Router `handleMessage` recovers it and Nacks the message)
   deriving DecidableEq, Repr, Inhabited
 
 def wrapPrefix : Str := ascii "cannot publish message to poison queue: "
@@ -104,10 +107,12 @@ def wrapPrefix : Str := ascii "cannot publish message to poison queue: "
 def RErr.causes : RErr → List Str
   | .same e => e.parts
   | .both e p => e.parts ++ [wrapPrefix ++ p]
+  | .panicked p => [p]
 
 def RErr.text : RErr → Str
   | .same e => e.text
   | .both e p => listFormat (e.parts ++ [wrapPrefix ++ p])
+  | .panicked p => p
 
 /-- `publishPoisonMessage` l.68-71: four map writes, in this order -/
 def stamp (m : Meta) (reason : Str) (c : Ctx) : Meta :=
@@ -131,6 +136,7 @@ def middleware (ptopic : Str) (filter : HErr → Bool) (pub : POut) (c : Ctx) (m
       match pub with
       | .ok     => ⟨[(ptopic, msg2)], h.outs, none, msg2⟩
       | .fail t => ⟨[(ptopic, msg2)], h.outs, some (.both e t), msg2⟩
+      | .panic t => ⟨[(ptopic, msg2)], [], some (.panicked t), msg2⟩    -- nothing is returned
 
 inductive Settle | ack | nack
   deriving DecidableEq, Repr, Inhabited
